@@ -124,6 +124,26 @@ func c17Run(c *fw.Ctx) {
 			c.Violation("C17|"+clause+"|"+metaClass(p), detail, c17Case{Kind: "match", Pattern: p})
 		}
 	})
+	if c.Thorough() {
+		// the property's full product: patterns of length exactly 5 x keys <= 5 over the 9-symbol alphabet
+		base := []byte{'a', 'b', '*', '?', '.', '+', '(', '|', '$'}
+		var keys9 []string
+		eachString(base, 5, func(b []byte) { keys9 = append(keys9, string(b)) })
+		eachString(base, 5, func(b []byte) {
+			if len(b) != 5 || !c.Mine() || c.Expired() {
+				return
+			}
+			p := string(b)
+			clause, detail, n := c17Match(p, keys9)
+			c.EvalN(int64(n))
+			if strings.ContainsAny(p, ".+(|$") {
+				c.Nontrivial()
+			}
+			if clause != "" {
+				c.Violation("C17|"+clause+"|"+metaClass(p), detail, c17Case{Kind: "match", Pattern: p})
+			}
+		})
+	}
 	// through the server: KEYS and SCAN MATCH against a store holding all keys of length <= 2
 	var small []string
 	eachString(alpha, 2, func(b []byte) { small = append(small, string(b)) })
@@ -175,8 +195,8 @@ func init() {
 	fw.Register(&fw.Prop{
 		ID:          "C17",
 		Level:       "exploration",
-		Rule:        "alphabet {a b * ? . + ( | $} (thorough adds ) ^ { }): ALL patterns of length <=3 x ALL keys of length <=4 (thorough: patterns <=4 x keys <=5) compared with a recursive reference matcher; and, through the real server over the example store holding all keys of length <=2, KEYS p and SCAN 0 MATCH p COUNT 1000 for every pattern of length <=3 against the reference selection. evaluations counts (pattern,key) matches; non-trivial = patterns containing a regular-expression metacharacter.",
-		Assumptions: []string{"'[', ']' and '\\' are not in the alphabet (Redis gives them a meaning the statement does not fix)", "the full <=5 x <=5 product and random longer patterns are not claimed"},
+		Rule:        "alphabet {a b * ? . + ( | $} (thorough adds ) ^ { }): ALL patterns of length <=3 x ALL keys of length <=4 (thorough: patterns <=4 x keys <=5 over 13 symbols, and the property's full product patterns <=5 x keys <=5 over the 9-symbol alphabet) compared with a recursive reference matcher; and, through the real server over the example store holding all keys of length <=2, KEYS p and SCAN 0 MATCH p COUNT 1000 for every pattern of length <=3 against the reference selection. evaluations counts (pattern,key) matches; non-trivial = patterns containing a regular-expression metacharacter.",
+		Assumptions: []string{"'[', ']' and '\\' are not in the alphabet (Redis gives them a meaning the statement does not fix)", "random longer patterns are not claimed; the full <=5 x <=5 product is enumerated in the thorough tier only"},
 		Run:         c17Run,
 		Replay:      c17Replay,
 		Budget: func(tier string) time.Duration {
